@@ -32,5 +32,14 @@ Emit == IF mode = "fold" THEN PrintT("F " \o ToJson([parts |-> parts]))
 Laws == ResolveLaws
 Sound == mode = "fold" \/ (AggSound(tree) /\ AggAgree(tree))
 Identity == mode # "fold" \/ LeftIdentityOnly(parts)
+Bounds == {<<"C">>} \cup {<<s, n>> : s \in {"P", "F"}, n \in {-1, 0, 1, 7}}
+FramesAll == {[unit |-> u, lo |-> lo, hi |-> hi] : u \in {"ROWS", "RANGE"}, lo \in Bounds, hi \in Bounds \cup {<<>>}}
+\* every window shape x every frame (and none, and a second one): the frame is carried in the grammar, never without OVER; every frame
+\* standard SQL accepts is accepted (the converse is the named deviation DevFrameOrderUnchecked)
+Frames == \A o \in BOOLEAN, r \in BOOLEAN :
+             /\ FrameCarried(o, r, <<>>) /\ NoBareFrame(o, r, <<>>)
+             /\ \A f \in FramesAll : /\ FrameCarried(o, r, <<f>>) /\ NoBareFrame(o, r, <<f>>) /\ IsFrameToks(FrameToks(f))
+                                     /\ (FrameLegal(f) => WindowCall(o, r, <<f>>).st = "ok")
+                                     /\ WindowCall(o, r, <<f, f>>).st # "ok"
 Arity == \A d \in {"none", "0", "1", "2", "3"}, g \in {"0", "1", "2", "3", "4"} : ArityExact(d, g)
 =============================================================================
